@@ -5,9 +5,9 @@
 // destination arena untouched.  See DESIGN.md section 5, C14.
 //
 // Alternatives L = {gray8, gray16, rgb8, rgb8 planar, bgr8, rgba8}; shapes w,h in {0,1,2,3,5}.
-// equal_pixels / any_image::operator== are instantiated on the list without the planar
-// alternative (defect F2: equal_pixels on two planar views of one type does not compile); the
-// list with it is a build probe (propcfg), as are transposed_view and nth_channel_view.
+// transposed_view and nth_channel_view of a variant do not instantiate at present: parts 8 and 9
+// are build probes (propcfg).  -DC14_EQ_WITHOUT_PLANAR takes the planar alternative out of the
+// equal_pixels / operator== list (needed while defect F2 was open; fixed in /repo since).
 #include <boost/gil.hpp>
 #include <boost/gil/extension/dynamic_image/dynamic_image_all.hpp>
 #include <boost/gil/extension/numeric/sampler.hpp>
@@ -48,7 +48,7 @@ typedef AI::const_view_t ACV;
 // without the planar alternative (F2)
 typedef gil::any_image<ALT<0>::image_t, ALT<1>::image_t, ALT<2>::image_t, ALT<4>::image_t, ALT<5>::image_t> AInp;
 typedef AInp::view_t AVnp;
-#ifdef C14_PROBE_EQUAL_PLANAR
+#ifndef C14_EQ_WITHOUT_PLANAR
 typedef AI AIeq; typedef AV AVeq;
 #else
 typedef AInp AIeq; typedef AVnp AVeq;
@@ -59,8 +59,17 @@ template <int I, int N> struct AltLoop {
 };
 template <int N> struct AltLoop<N, N> { template <class F> static void run(F&) {} };
 
-static const int SHAPES[] = {0, 1, 2, 3, 5};
-static const int NSHAPES = 5;
+// shapes: w,h in {0,1,2,3,5} (quick) / {0,1,2,3,4,5,7,8} (thorough); set in main() after vh::init
+static int SHAPES[8] = {0, 1, 2, 3, 5, 0, 0, 0};
+static int NSHAPES = 5;
+static int REPS = 1;            // seeded contents per shape in the algorithm cases (thorough: 3)
+static void init_shapes() {
+    if (!vh::thorough()) return;
+    REPS = 3;
+    static const int t[] = {0, 1, 2, 3, 4, 5, 7, 8};
+    for (int i = 0; i < 8; ++i) SHAPES[i] = t[i];
+    NSHAPES = 8;
+}
 
 // ---- arenas ------------------------------------------------------------------------------------
 struct Arena {
@@ -126,11 +135,16 @@ struct value_fn {
 struct type_fn { typedef const char* result_type; template <class V> const char* operator()(V const&) const { return typeid(V).name(); } };
 
 // compare a transformed variant with the same transformation of the concrete view
+// by_type: several alternatives of the result variant may be one and the same type (nth_channel_view of rgb8, bgr8
+// and rgba8 views); then index() cannot identify the source alternative and the held *type* is compared instead
 template <class AnyR, class ConcR>
-void same_view(const char* op, const char* alt, int idx, AnyR const& ar, ConcR const& cr, const std::string& shape) {
+void same_view(const char* op, const char* alt, int idx, AnyR const& ar, ConcR const& cr, const std::string& shape, bool by_type = false) {
     std::vector<const void*> ia, ic; std::ptrdiff_t da[2] = {-1, -1}, dc[2] = {-1, -1};
     ++g_evals;
-    if ((int)ar.index() != idx) { vh::viol(vh::cat(op, ".index.", alt), vh::cat("result holds alternative ", ar.index(), ", source held ", idx, " shape ", shape)); return; }
+    if (by_type) {
+        const char* held = v2::visit(type_fn(), ar);
+        if (strcmp(held, typeid(ConcR).name()) != 0) { vh::viol(vh::cat(op, ".type.", alt), vh::cat("result holds a view of another type than the concrete transformation returns, source held ", idx, " shape ", shape)); return; }
+    } else if ((int)ar.index() != idx) { vh::viol(vh::cat(op, ".index.", alt), vh::cat("result holds alternative ", ar.index(), ", source held ", idx, " shape ", shape)); return; }
     v2::visit(ident_fn{&ia, da}, ar);
     ident_fn{&ic, dc}(cr);
     if (da[0] != dc[0] || da[1] != dc[1] || ar.width() != dc[0] || ar.height() != dc[1] || (std::ptrdiff_t)ar.size() != dc[0] * dc[1])
@@ -300,7 +314,7 @@ template <int I> void nth_channel_case() {
         typename ALT<I>::view_t cv = view_of<I>(A);
         AV av(cv);
         for (int n = 0; n < (int)ALT<I>::nch; ++n)
-            same_view("nth_channel_view", an, I, gil::nth_channel_view(av, n), gil::nth_channel_view(cv, n), shape_str(w, h));
+            same_view("nth_channel_view", an, I, gil::nth_channel_view(av, n), gil::nth_channel_view(cv, n), shape_str(w, h), true);
     }
     vh::evals(g_evals - e0); vh::distinct(NSHAPES * NSHAPES);
 }
@@ -342,7 +356,7 @@ template <int I, int K> void fill_case() {
     vh::rng r = vh::case_rng();
     uint64_t e0 = g_evals;
     const bool compat = (int)ALT<I>::cls == (int)FILLV<K>::cls;
-    for (int wi = 0; wi < NSHAPES; ++wi) for (int hi = 0; hi < NSHAPES; ++hi) {
+    for (int wi = 0; wi < NSHAPES; ++wi) for (int hi = 0; hi < NSHAPES; ++hi) for (int rep = 0; rep < REPS; ++rep) {
         int w = SHAPES[wi], h = SHAPES[hi];
         Arena D = make_arena<I>(w, h, r), D2 = D;
         AV vd(view_of<I>(D));
@@ -354,6 +368,12 @@ template <int I, int K> void fill_case() {
             if (threw) vh::viol(vh::cat("fill_pixels.unexpected-bad_cast.", id), vh::cat("shape ", shape_str(w, h)));
             concrete<compat>::fill(view_of<I>(D2), val);
             if (!(D == D2)) vh::viol(vh::cat("fill_pixels.result.", id), vh::cat("arena differs from the concrete fill_pixels, shape ", shape_str(w, h)));
+            // a variant of step views (F23: used not to compile for the planar alternative)
+            typename FILLV<K>::type val2 = FILLV<K>::make(r);
+            gil::fill_pixels(gil::subsampled_view(vd, 2, 1), val2);
+            concrete<compat>::fill(gil::subsampled_view(view_of<I>(D2), 2, 1), val2);
+            ++g_evals;
+            if (!(D == D2)) vh::viol(vh::cat("fill_pixels.stepped.result.", id), vh::cat("arena differs from the concrete fill_pixels on subsampled_view(.,2,1), shape ", shape_str(w, h)));
         } else {
             if (!threw) vh::viol(vh::cat("fill_pixels.no-bad_cast.", id), vh::cat("incompatible value accepted, shape ", shape_str(w, h)));
             if (!(D == D2)) vh::viol(vh::cat("fill_pixels.dst-changed-on-bad_cast.", id), vh::cat("shape ", shape_str(w, h)));
@@ -373,7 +393,7 @@ template <int I> void for_each_case() {
     if (!vh::begin_case("for_each_pixel", an)) return;
     vh::rng r = vh::case_rng();
     uint64_t e0 = g_evals;
-    for (int wi = 0; wi < NSHAPES; ++wi) for (int hi = 0; hi < NSHAPES; ++hi) {
+    for (int wi = 0; wi < NSHAPES; ++wi) for (int hi = 0; hi < NSHAPES; ++hi) for (int rep = 0; rep < REPS; ++rep) {
         int w = SHAPES[wi], h = SHAPES[hi];
         Arena D = make_arena<I>(w, h, r), D2 = D;
         AV vd(view_of<I>(D));
@@ -421,7 +441,7 @@ template <class OP, int I, int J, int FORM> void binary_case() {
     uint64_t e0 = g_evals;
     const bool compat = (int)ALT<I>::cls == (int)ALT<J>::cls;
     const bool ok = compat || OP::converts;
-    for (int wi = 0; wi < NSHAPES; ++wi) for (int hi = 0; hi < NSHAPES; ++hi) {
+    for (int wi = 0; wi < NSHAPES; ++wi) for (int hi = 0; hi < NSHAPES; ++hi) for (int rep = 0; rep < REPS; ++rep) {
         int w = SHAPES[wi], h = SHAPES[hi];
         std::string sh = shape_str(w, h);
         Arena S = make_arena<I>(w, h, r), D = make_arena<J>(w, h, r), S2 = S, D2 = D;
@@ -454,13 +474,11 @@ template <class OP, int FORM> void binary_all() {
     AltLoop<0, NALT>::run(fi);
 }
 
-// ---- equal_pixels and any_image equality (list AIeq: without the planar alternative unless probing) ----
+// ---- equal_pixels and any_image equality (list AIeq) ----
 // index of alternative I of the full list inside AIeq
-#ifdef C14_PROBE_EQUAL_PLANAR
-static const int EQALTS[] = {0, 1, 2, 3, 4, 5};
+#ifndef C14_EQ_WITHOUT_PLANAR
 static const int NEQ = 6;
 #else
-static const int EQALTS[] = {0, 1, 2, 4, 5};
 static const int NEQ = 5;
 #endif
 template <int E> struct EQ { enum { alt = (NEQ == 6 ? E : (E < 3 ? E : E + 1)) }; };
@@ -474,7 +492,7 @@ template <int EI, int EJ, int FORM> void equal_case() {
     vh::rng r = vh::case_rng();
     uint64_t e0 = g_evals;
     const bool compat = (int)ALT<I>::cls == (int)ALT<J>::cls;
-    for (int wi = 0; wi < NSHAPES; ++wi) for (int hi = 0; hi < NSHAPES; ++hi) for (int same = 0; same < 2; ++same) {
+    for (int wi = 0; wi < NSHAPES; ++wi) for (int hi = 0; hi < NSHAPES; ++hi) for (int rep = 0; rep < REPS; ++rep) for (int same = 0; same < 2; ++same) {
         int w = SHAPES[wi], h = SHAPES[hi];
         std::string sh = shape_str(w, h);
         Arena S = make_arena<I>(w, h, r), D = make_arena<J>(w, h, r);
@@ -634,6 +652,7 @@ template <int EI> void image_equality_case() {
 
 int main(int argc, char** argv) {
     vh::init(argc, argv);
+    init_shapes();
 #if C14_PART == 0
     { auto f = [&](auto ic) { queries_and_transforms<decltype(ic)::value>(); }; AltLoop<0, NALT>::run(f); }
 #elif C14_PART == 1
